@@ -62,7 +62,14 @@ TRUNC = {"header", "hs_header", "alert", "ccs", "ack", "rrc", "record12", "hands
          "record13_ciphertext"}
 # codecs that carry their own length: bytes appended to a valid encoding must be rejected or
 # ignored, never become part of the value
-TRAIL = TRUNC - {"rrc"} | {"rrc"}
+TRUNC |= {"client_hello", "new_session_ticket", "encrypted_extensions", "certificate13",
+          "certificate_request13", "ext_raw_list"}
+TRAIL = set(TRUNC)
+
+
+def self_delimiting(c):
+    """codecs with a *_trunc theorem: the listed ones and every extension payload except Raw"""
+    return c["codec"] in TRUNC or (119 <= c["id"] <= 148 and c["id"] != 130)
 
 
 # codec ids that Codec.C18Run.run knows; everything else is checked by the implementation-side
@@ -119,11 +126,11 @@ def monitors(cases):
             if c["codec"] == "unpack" and c["reenc"] != c["in"]:
                 flag(c, "records-do-not-partition-datagram")
         par = valid.get((c["id"], tuple(c["ctx"]), c.get("parent", "")))
-        if c["kind"] in ("trunc", "ctrunc") and par is not None and c["res"] == "ok" and c["codec"] in TRUNC:
+        if c["kind"] in ("trunc", "ctrunc") and par is not None and c["res"] == "ok" and self_delimiting(c):
             # RRC messages of unknown type have no length of their own
             if not (c["codec"] == "rrc" and par is not None and par["dump"][0] > 2):
                 flag(c, "truncated-encoding-accepted")
-        if c["kind"] in ("trail", "ctrail") and c["res"] == "ok" and c["codec"] in TRAIL and par is not None:
+        if c["kind"] in ("trail", "ctrail") and c["res"] == "ok" and self_delimiting(c) and par is not None:
             if par["res"] == "ok" and c["dump"] != par["dump"]:
                 flag(c, "bytes-beyond-encoding-consumed")
     return bad
